@@ -37,15 +37,15 @@ STD_NOTIFS = ["notifications/initialized", "notifications/cancelled", "notificat
               "notifications/tools/list_changed", "notifications/prompts/list_changed"]
 CORE = ["initialize", "ping", "tools/list", "tools/call", "resources/list", "resources/read", "custom/ok", "custom/raises", "custom/slow",
         "custom/raises_empty", "custom/raises_unprintable"]
-RANDOM_METHODS = ["", " ", "nope", "other/only", "tools/call/extra", "rpc.internal", "TOOLS/LIST", "ünï/codé", "notifications/", "a" * 200, "tools\ncall"]
+RANDOM_METHODS = ["", " ", "nope", "other/only", "tools/call/extra", "rpc.internal", "TOOLS/LIST", "ünï/codé", "notifications/", "a" * 200, "tools\ncall", "tools/\ud83d", "\udc00"]
 IDS = [0, 1, -5, 2 ** 53 + 1, 10 ** 30, "", "abc", "0", "id with space", "ü", "x" * 100]
 BEHAV = ["ok_str", "ok_dict", "ok_list", "ok_none", "raise_value", "raise_key", "raise_runtime", "raise_type", "nonsense_obj", "nonsense_set",
-         "nonsense_badstr", "sleep_ok", "sleep_raise", "raise_empty", "raise_assert", "raise_notimpl", "raise_unprintable"]
+         "nonsense_badstr", "sleep_ok", "sleep_raise", "raise_empty", "raise_assert", "raise_notimpl", "raise_unprintable", "raise_surrogate"]
 
 
 def _params_for(method, rng):
     if method == "tools/call":
-        name = rng.choice(["echo", "echo", "flaky", "missing-tool", None, 5, ["echo"], {"n": 1}])
+        name = rng.choice(["echo", "echo", "flaky", "missing-tool", None, 5, ["echo"], {"n": 1}, "tool\udc00"])
         p = {"name": name, "arguments": rng.choice([{"text": "hi"}, {}, None, ["x"], "str", 7, {"unexpected": 1, "text": "t"}])}
         if rng.random() < 0.15:
             del p["arguments"]
@@ -53,7 +53,7 @@ def _params_for(method, rng):
             del p["name"]
         return rng.choice([p, p, p, None, {}])
     if method == "resources/read":
-        return rng.choice([{"uri": "file:///a.txt"}, {"uri": "file:///flaky"}, {"uri": "file:///missing"}, {"uri": None}, {"uri": ["x"]}, {}, None])
+        return rng.choice([{"uri": "file:///a.txt"}, {"uri": "file:///flaky"}, {"uri": "file:///missing"}, {"uri": "file:///\ud83d"}, {"uri": None}, {"uri": ["x"]}, {}, None])
     if method == "initialize":
         return rng.choice([None, {}, {"protocolVersion": "2025-06-18", "clientInfo": {"name": "c", "version": "1"}, "capabilities": {}},
                            {"protocolVersion": 5, "clientInfo": "str"}, {"protocolVersion": "2025-06-18", "clientInfo": None, "capabilities": {}},
@@ -78,11 +78,23 @@ def generate(rng: random.Random, tier: str) -> dict:
              "session": rng.choice([None, None, "unknown", "known", "initialized", "initialized"]), "gap": rng.choice([0, 0, 1, 5])}
         if not is_notif:
             m["id"] = rng.choice(IDS)
+        if rng.random() < 0.08:
+            m["cancel_after"] = rng.choice([0, 1, 5, 30])   # the task dispatching this message is cancelled (its connection went away)
         msgs.append(m)
+    mode = rng.choice(["serial", "task_per_message"])
+    if rng.random() < 0.06:
+        # several clients ask for the same thing at the same time; the one that asked first goes away (its dispatch is cancelled mid-handler)
+        mode = "task_per_message"
+        what = rng.choice([("resources/read", {"uri": "file:///a.txt"}), ("tools/call", {"name": "echo", "arguments": {"text": "same"}}), ("custom/slow", None)])
+        lead = {"client": 0, "method": what[0], "params": copy.deepcopy(what[1]), "notif": False, "build": "typed", "behav": "sleep_ok", "sleep": rng.choice([50, 200]),
+                "session": None, "gap": 0, "id": "lead", "cancel_after": rng.choice([1, 5, 20])}
+        followers = [{"client": 1 + j, "method": what[0], "params": copy.deepcopy(what[1]), "notif": False, "build": "typed", "behav": "sleep_ok", "sleep": 10,
+                      "session": None, "gap": rng.choice([0, 1, 3, 300]), "id": f"follow-{j}"} for j in range(rng.choice([1, 2, 3]))]
+        msgs = [lead] + followers + msgs[:2]
     if rng.random() < 0.25:
         msgs.insert(0, {"client": 0, "method": "initialize", "params": _params_for("initialize", rng), "notif": False, "build": rng.choice(["typed", "parse_message"]),
                         "behav": "ok_str", "sleep": 1, "session": None, "gap": 0, "id": "init-0"})
-    return {"v": 1, "mode": rng.choice(["serial", "task_per_message"]), "msgs": msgs, "second_server": rng.random() < 0.3}
+    return {"v": 1, "mode": mode, "msgs": msgs, "second_server": rng.random() < 0.3}
 
 
 def simplify(scn):
@@ -90,6 +102,9 @@ def simplify(scn):
         c = copy.deepcopy(scn); c["second_server"] = False; yield c
     if scn["mode"] != "serial":
         c = copy.deepcopy(scn); c["mode"] = "serial"; yield c
+    for i, m in enumerate(scn["msgs"]):
+        if m.get("cancel_after") is not None:
+            c = copy.deepcopy(scn); del c["msgs"][i]["cancel_after"]; yield c
     for i, m in enumerate(scn["msgs"]):
         if m["behav"] != "ok_str":
             c = copy.deepcopy(scn); c["msgs"][i]["behav"] = "ok_str"; yield c
@@ -159,6 +174,9 @@ def execute(scn: dict) -> dict:
             if kind == "raise_unprintable":
                 st["handler_faults"] += 1
                 raise _Unprintable()
+            if kind == "raise_surrogate":
+                st["handler_faults"] += 1
+                raise RuntimeError("cannot open '\udcff\ud83d.txt'")  # text with lone surrogates (os.fsdecode of a bad file name)
             if kind == "nonsense_obj":
                 st["nonsense"] += 1
                 return object()
@@ -262,23 +280,45 @@ def execute(scn: dict) -> dict:
                     await anyio.sleep(ticks(m["gap"]))
                 await dispatch(k, m)
         else:
+            async def dispatch_cancellable(k, m):
+                with anyio.CancelScope() as scope:
+                    sim.at(sim.now() + ticks(m["cancel_after"]), scope.cancel, tie=2)
+                    await dispatch(k, m)
+                if k not in st["results"] or (st["results"][k][0] == "raise" and isinstance(st["results"][k][1], BaseException)
+                                              and not isinstance(st["results"][k][1], Exception)):
+                    st["results"][k] = ("cancelled",)
+                    sim.fault("dispatch_task_cancelled_mid_handler")
+
             async with anyio.create_task_group() as tg:
                 for k, m in enumerate(scn["msgs"]):
                     if m["gap"]:
                         await anyio.sleep(ticks(m["gap"]))
-                    tg.start_soon(dispatch, k, m, name=f"dispatch-{k}")
+                    tg.start_soon(dispatch_cancellable if m.get("cancel_after") is not None else dispatch, k, m, name=f"dispatch-{k}")
 
     info = run_sim(main, max_steps=200_000, max_vtime=1000.0)
     sim = info.sim
     out = {"violations": [], "digest": sim.digest(), "isig": sim.isig(), "faults": dict(sim.faults),
            "probes": dict(sim.probes), "vtime": info.vtime, "steps": info.steps, "harness": list(sim.harness_errors),
            "nontrivial": False, "history": None}
-    if info.deadlock or info.limit or info.exc is not None:
+    if info.limit or info.exc is not None:
         out["harness"].append(f"run did not complete: deadlock={info.deadlock} limit={info.limit} exc={info.exc!r}")
         return out
 
     def V(cls, sig, msg):
         out["violations"].append({"cls": f"C08/{cls}", "sig": f"C08/{cls}:{sig}", "msg": msg})
+
+    if info.deadlock:
+        # nothing is runnable and no timer is pending, yet some dispatch has not returned: those requests can never be answered
+        # (tearing the run down cancels what is stuck: a cancellation recorded for a message nobody cancelled is that teardown)
+        stuck = [k for k in range(len(scn["msgs"])) if k not in st["results"]
+                 or (st["results"][k][0] == "raise" and not isinstance(st["results"][k][1], Exception) and scn["msgs"][k].get("cancel_after") is None)]
+        for k in stuck:
+            m = scn["msgs"][k]
+            V("request-unanswered" if not m["notif"] else "dispatch-raised", "dispatch-never-returned:" + m["method"][:30],
+              f"dispatch of message #{k} ({'notification' if m['notif'] else 'request id=' + repr(m.get('id'))} {m['method']!r:.40}) never returned: the server is stuck")
+        if not stuck:
+            out["harness"].append("deadlock without a stuck dispatch")
+        return out
 
     def probe(k):
         out["probes"][k] = out["probes"].get(k, 0) + 1
@@ -293,6 +333,9 @@ def execute(scn: dict) -> dict:
             V("lost", "no-outcome", f"message #{k} produced no outcome")
             continue
         if r[0] == "unbuildable":
+            continue
+        if r[0] == "cancelled":
+            probe("dispatch_cancelled")  # nothing is owed to a caller that went away; everybody else must still be served
             continue
         method = m["method"]
         mclass = ("registered" if method in registered else ("std-notification" if method in STD_NOTIFS else "random"))
@@ -395,7 +438,12 @@ def execute(scn: dict) -> dict:
             V("response-shape", "error-object", f"error object {err!r:.100}")
         # the line a minimal stdio loop would print parses back to the same id
         try:
-            line = resp.model_dump_json(exclude_none=True)
+            try:
+                line = resp.model_dump_json(exclude_none=True)
+            except Exception:
+                # text with lone surrogates has no UTF-8 form; the \u-escaped form is the line such a response goes out as
+                line = json.dumps(resp.model_dump(exclude_none=True), ensure_ascii=True)
+                probe("response_text_with_lone_surrogate")
             back = json.loads(line)
             if "\n" in line or back.get("id") != m["id"] or type(back.get("id")) is not type(m["id"]) or back.get("jsonrpc") != "2.0":
                 V("wire", "id-not-preserved", f"printed line {line!r:.160} does not carry id {m['id']!r}")
